@@ -21,6 +21,12 @@ theorem NoPanic.bind {α β} {x : M α} {f : α → M β} {P : α → Prop} {Q :
   · rw [ok_bind]; exact hf v hv
   · rw [error_bind]; exact Or.inr ⟨s, rfl⟩
 
+theorem NoPanic.bind' {α β} {x : M α} {f : α → M β} {P : α → Prop} {Q : β → Prop} (hx : NoPanic x P)
+    (hf : ∀ v, x = .ok v → P v → NoPanic (f v) Q) : NoPanic (x >>= f) Q := by
+  rcases hx with ⟨v, hv, hp⟩ | ⟨s, rfl⟩
+  · rw [hv, ok_bind]; exact hf v hv hp
+  · rw [error_bind]; exact Or.inr ⟨s, rfl⟩
+
 theorem NoPanic.mono {α} {x : M α} {P Q : α → Prop} (hx : NoPanic x P) (h : ∀ v, P v → Q v) : NoPanic x Q := by
   rcases hx with ⟨v, rfl, hv⟩ | ⟨s, rfl⟩
   · exact Or.inl ⟨v, rfl, h v hv⟩
